@@ -28,7 +28,8 @@ ASSUMPTIONS = [
     "transforms return new objects (identity transforms on mutable values are excluded by the property's own quantifier)",
 ]
 
-NEW_OBJECT_FNS = {"inc", "double", "neg", "const", "suffix", "append_copy", "empty", "with_first", "wrong", "to_missing"}
+NEW_OBJECT_FNS = {  # "existing" returns an object that already exists: not a new-object transform
+    "inc", "double", "neg", "const", "suffix", "append_copy", "empty", "with_first", "wrong", "to_missing"}
 
 
 def _sanitize(op):
@@ -92,10 +93,15 @@ def run_case(ctx, case):
         ctx.case(case, False)
         return
     if result is cur:
-        # No copy was derived (documented no-op forms: _if=False, UNCHANGED, MISSING, element helpers on a
-        # missing container). That the receiver itself is unchanged in that case is C01's oracle.
-        ctx.count("probe:returned_receiver")
-        ctx.case(case, False)
+        # Returning the receiver itself is only legitimate for the documented no-op forms (C05): _if=False, an
+        # UNCHANGED / MISSING value, a transform returning MISSING, or an element update/transform/without on a
+        # container that does not exist. Any other copy-on-write call must hand back a distinct instance -
+        # otherwise "the copy" shares everything with the original.
+        if _is_noop_form(world, cur, probe):
+            ctx.count("probe:noop_returned_receiver")
+            ctx.case(case, False)
+            return
+        ctx.fail(f"{route}|returned_receiver", case, f"{probe} returned the receiver itself instead of a copy")
         return
 
     def mids(o):
@@ -138,6 +144,31 @@ def run_case(ctx, case):
             return
     deep = _depth(cur) >= 2 and len(a) >= 3
     ctx.case(case, deep and ok_follow > 0)
+
+
+def _is_noop_form(world, cur, probe):
+    if probe["t"] != "call":
+        return False
+    k = probe["k"]
+    if k.get("_if") is False:
+        return True
+    vals = list(probe["a"]) + [v for kk, v in k.items()]
+    if any(ops.is_special(v) and (v[0] in ("$missing", "$unchanged") or (v[0] == "$fn" and v[1] == "to_missing")) for v in vals):
+        return True
+    m = probe["m"]
+    if "_" in m:
+        verb, rest = m.split("_", 1)
+        d = object.__getattribute__(cur, "__dict__")
+        for name in world.attrs():
+            if grammar.SINGULAR.get(name) == rest and verb in ("update", "transform", "without") and name not in d:
+                return True
+        if verb in ("with", "update", "transform") and rest in world.attrs():
+            # with_<a>() / update_<a>() / transform_<a>() given nothing at all
+            if not probe["a"] and not [kk for kk in k if not kk.startswith("_")] and verb != "with":
+                return True
+    if m in ("update", "transform") and not probe["a"] and not [kk for kk in k if not kk.startswith("_")]:
+        return True
+    return False
 
 
 def _leaf(v):
